@@ -10,7 +10,7 @@ from . import c01
 
 ID = "C02"
 NEEDS_SHIM = False
-BUDGET = {"quick": 3000, "thorough": 80000}
+BUDGET = {"quick": 3000, "thorough": 400000}
 MIN_EVALS = {"quick": 2000, "thorough": 50000}
 RULE = (
     "seeded random cases: layout (1-3 axes, 2-6 cells) x constructor spellings (periodic bool/list/mapping; boundary, "
@@ -29,7 +29,7 @@ REQUIRED_REACH = [
 
 
 def gen_case(rng, i, tier):
-    layout = gen.random_layout(rng, nmin=2, nmax=6)
+    layout = gen.random_layout(rng, nmin=2, nmax=gen.deep(rng, tier, 6, 11))
     axn = [a["name"] for a in layout["axes"]]
     cm = gen.layout_coords(layout)
     ctor = c01.gen_ctor(rng, axn, partial_list=True)
